@@ -27,6 +27,7 @@ public:
         s_ = &s;
         cap_ = static_cast<unsigned>(std::max(1L, spec.num("cap", 4)));
         Ipc::Mem::PageStack::Config cfg;
+        memset(static_cast<void *>(&cfg), 0, sizeof(cfg)); // padding bytes are copied into the (hashed) PageStack
         cfg.poolId = PoolId;
         cfg.pageSize = 0;
         cfg.capacity = cap_;
